@@ -262,6 +262,7 @@ func (e *bufferExporter) Export(ctx context.Context, records []Record) error {
 	if len(records) == 0 {
 		return nil
 	}
+	verifPoint("blp.xexp.called", ctx)
 
 	resp := make(chan error, 1)
 	err := e.enqueue(ctx, records, resp)
@@ -287,6 +288,7 @@ func (e *bufferExporter) ForceFlush(ctx context.Context) error {
 	err := e.enqueue(ctx, nil, resp)
 	if err != nil {
 		if errors.Is(err, errStopped) {
+			verifPoint("blp.xff.stopped", ctx)
 			return nil
 		}
 		return err
@@ -310,6 +312,7 @@ func (e *bufferExporter) Shutdown(ctx context.Context) error {
 	if e.stopped.Swap(true) {
 		return nil
 	}
+	verifPoint("blp.xsd.swapped", ctx)
 	e.inputMu.Lock()
 	defer e.inputMu.Unlock()
 
